@@ -109,6 +109,7 @@ structure Err where
   feat : List Char := []     -- the pinned deviations the run went through before it failed
   plus : Bool := false       -- the `plus` flag the Parser is left with
   lastStrKey : Bytes := []   -- and the key it would join to
+  lastKey : Bytes := []      -- the last member name stored (a later `+` copies it into `lastStrKey`)
   deriving Repr, Inhabited
 
 structure Cfg where
@@ -637,8 +638,9 @@ structure Pos where
   noff : Int := -1
   deriving Repr, Inhabited
 
-def Pos.err (p : Pos) (k : ErrKind) (feat : List Char := []) (plus : Bool := false) (lsk : Bytes := []) : Err :=
-  { line := p.line, col := (p.off : Int) - p.noff, kind := k, feat := feat, plus := plus, lastStrKey := lsk }
+def Pos.err (p : Pos) (k : ErrKind) (feat : List Char := []) (plus : Bool := false) (lsk : Bytes := [])
+    (lk : Bytes := []) : Err :=
+  { line := p.line, col := (p.off : Int) - p.noff, kind := k, feat := feat, plus := plus, lastStrKey := lsk, lastKey := lk }
 
 def Pos.next (p : Pos) (nl : Bool) : Pos :=
   if nl then { line := p.line + 1, off := p.off + 1, noff := p.off } else { p with off := p.off + 1 }
@@ -661,7 +663,7 @@ def runBytes (s : St) (f : Fast) (p : Pos) : Bytes → Except Err (St × Fast ×
   | [] => .ok (s, f, p)
   | b :: r =>
     match step T cfg s f b r.isEmpty with
-    | .error k => .error (p.err k (cellFeat T cfg s b).feat s.plus s.lastStrKey)
+    | .error k => .error (p.err k (cellFeat T cfg s b).feat s.plus s.lastStrKey s.lastKey)
     | .ok (s', f', nl) => runBytes s' f' (p.next nl) r
 
 /-- the read buffers one after the other: the fast paths end with the buffer, `off` restarts -/
@@ -680,37 +682,38 @@ structure Out where
   feat : List Char
   plus : Bool
   lastStrKey : Bytes := []
+  lastKey : Bytes := []
 
 /-- end of input (`last`) -/
 def finish (s : St) (p : Pos) : Except Err Out :=
-  if !s.starts.isEmpty then .error (p.err .notClosed s.feat s.plus s.lastStrKey)
+  if !s.starts.isEmpty then .error (p.err .notClosed s.feat s.plus s.lastStrKey s.lastKey)
   else
     match T.fin s.mode with
-    | .absent => .error (p.err .incomplete s.feat s.plus s.lastStrKey)
+    | .absent => .error (p.err .incomplete s.feat s.plus s.lastStrKey s.lastKey)
     | .n =>
       if cfg.tokenizer then
         match s.handleNumT with
-        | .error k => .error (p.err k s.feat s.plus s.lastStrKey)
-        | .ok s' => .ok { docs := [], evs := s'.evs.reverse, feat := s'.feat, plus := s'.plus, lastStrKey := s'.lastStrKey }
+        | .error k => .error (p.err k s.feat s.plus s.lastStrKey s.lastKey)
+        | .ok s' => .ok { docs := [], evs := s'.evs.reverse, feat := s'.feat, plus := s'.plus, lastStrKey := s'.lastStrKey, lastKey := s'.lastKey }
       else
         match s.addIgnore s.num.asNum.toJV with
-        | .error k => .error (p.err k s.feat s.plus s.lastStrKey)
+        | .error k => .error (p.err k s.feat s.plus s.lastStrKey s.lastKey)
         | .ok s' =>
           match s'.stack.getLast? with
-          | none => .error (p.err (.fault "index out of range [0]") s.feat s.plus s.lastStrKey)
-          | some it => .ok { docs := (it.toJV :: s'.docs).reverse, evs := [], feat := s'.feat, plus := s'.plus, lastStrKey := s'.lastStrKey }
+          | none => .error (p.err (.fault "index out of range [0]") s.feat s.plus s.lastStrKey s.lastKey)
+          | some it => .ok { docs := (it.toJV :: s'.docs).reverse, evs := [], feat := s'.feat, plus := s'.plus, lastStrKey := s'.lastStrKey, lastKey := s'.lastKey }
     | .t =>
       if cfg.tokenizer then
         let s' := s.addTokenT s.tmp.reverse
-        .ok { docs := [], evs := s'.evs.reverse, feat := s'.feat, plus := s'.plus, lastStrKey := s'.lastStrKey }
+        .ok { docs := [], evs := s'.evs.reverse, feat := s'.feat, plus := s'.plus, lastStrKey := s'.lastStrKey, lastKey := s'.lastKey }
       else
         match s.addTokenP s.tmp.reverse with
-        | .error k => .error (p.err k s.feat s.plus s.lastStrKey)
+        | .error k => .error (p.err k s.feat s.plus s.lastStrKey s.lastKey)
         | .ok s' =>
           match s'.stack.getLast? with
-          | none => .error (p.err (.fault "index out of range [0]") s.feat s.plus s.lastStrKey)
-          | some it => .ok { docs := (it.toJV :: s'.docs).reverse, evs := [], feat := s'.feat, plus := s'.plus, lastStrKey := s'.lastStrKey }
-    | _ => .ok { docs := s.docs.reverse, evs := s.evs.reverse, feat := s.feat, plus := s.plus, lastStrKey := s.lastStrKey }
+          | none => .error (p.err (.fault "index out of range [0]") s.feat s.plus s.lastStrKey s.lastKey)
+          | some it => .ok { docs := (it.toJV :: s'.docs).reverse, evs := [], feat := s'.feat, plus := s'.plus, lastStrKey := s'.lastStrKey, lastKey := s'.lastKey }
+    | _ => .ok { docs := s.docs.reverse, evs := s.evs.reverse, feat := s.feat, plus := s.plus, lastStrKey := s.lastStrKey, lastKey := s.lastKey }
 
 /-- The state a call starts from, given the state `prev` the previous call on the same instance left
 behind: `Parse`/`ParseReader` (and `Tokenizer.Parse`/`Load`) reset `stack`, `tmp`, `starts`, `result`,
